@@ -852,6 +852,7 @@ class dictable(Dict):
         b  |m     
         e  |m    
         """
+        by = as_tuple(by) # sort(['a', 'b']) is sort('a', 'b'), as in listby
         if len(self) == 0:
             return self.copy()
         elif len(by):
